@@ -34,22 +34,30 @@ func genCase(t *rapid.T) Case {
 		return genProc(t)
 	}
 	c := Case{Mode: "event"}
-	c.Unit = rapid.SampledFrom([]string{"ms", "ms", "ms", "ss"}).Draw(t, "unit")
+	c.Unit = rapid.SampledFrom([]string{"ms", "ms", "ms", "ss", "ss", "ns", "mi"}).Draw(t, "unit")
 	unitMs := int64(1)
-	if c.Unit == "ss" {
+	switch c.Unit {
+	case "ss":
 		unitMs = 1000
 		c.SizeMs = rapid.SampledFrom([]int64{1000, 2000, 5000, 60000, 90000}).Draw(t, "size")
-	} else {
+	case "mi":
+		unitMs = 60000
+		c.SizeMs = rapid.SampledFrom([]int64{60000, 120000, 300000, 3600000}).Draw(t, "size")
+	default:
 		c.SizeMs = rapid.SampledFrom([]int64{100, 250, 1000, 2000, 5000, 60000, 90000}).Draw(t, "size")
 	}
 	c.OOOMs = rapid.SampledFrom([]int64{0, 0, 300, 1000, 5000, 2 * c.SizeMs}).Draw(t, "ooo")
-	if c.Unit == "ss" {
-		c.OOOMs = c.OOOMs / 1000 * 1000
-	}
+	c.OOOMs = c.OOOMs / unitMs * unitMs
 	c.Groups = rapid.IntRange(0, 4).Draw(t, "groups")
-	c.TsKind = rapid.SampledFrom([]string{"int", "int64", "float64"}).Draw(t, "tskind")
+	c.TsKind = rapid.SampledFrom([]string{"int", "int64", "float64", "int64", "time", "string"}).Draw(t, "tskind")
+	if c.Unit == "ns" && c.TsKind == "float64" {
+		c.TsKind = "int64" // 1.7e18 ns is beyond float64's exact integers: the row's own timestamp would be rounded
+	}
 	c.Events = et.GenTimeline(t, et.TLParams{SizeMs: c.SizeMs, OOOMs: c.OOOMs, UnitMs: unitMs, Groups: c.Groups, MaxN: 40,
 		PreFirst: !pbt.Open("C01", "pre-first")})
+	for i := range c.Events {
+		c.Events[i].TS = c.Events[i].TS / unitMs * unitMs // et.Base is not a whole minute
+	}
 	c.HookSeed = hookSeed(t)
 	for range c.Events {
 		c.Pauses = append(c.Pauses, gen.Pause().Draw(t, "pause"))
